@@ -114,6 +114,10 @@ type pathCtx struct {
 	epsDeclared bool
 	maxSym     int
 	merge      *mergeCtx
+	defCache   map[string]string
+	decided    map[string]bool
+	feasMs     int
+	sqrtCache  map[string]string
 }
 
 // control-flow panics used by the engine
@@ -133,7 +137,14 @@ func (pc *pathCtx) def(sort, expr string) string {
 	if len(expr) < 48 {
 		return expr
 	}
+	if pc.defCache == nil {
+		pc.defCache = map[string]string{}
+	}
+	if n, ok := pc.defCache[expr]; ok {
+		return n
+	}
 	n := pc.fresh_("t")
+	pc.defCache[expr] = n
 	pc.solver.Send("(define-fun " + n + " () " + sort + " " + expr + ")")
 	return n
 }
@@ -232,6 +243,29 @@ func (pc *pathCtx) branch(cond string) bool {
 	}
 	if pc.merge != nil {
 		return pc.branchMerged(cond)
+	}
+	// a condition already decided on this path (syntactically identical term) needs no query
+	if pc.decided == nil {
+		pc.decided = map[string]bool{}
+	}
+	if d, ok := pc.decided[cond]; ok {
+		return d
+	}
+	if strings.HasPrefix(cond, "(not ") {
+		if d, ok := pc.decided[cond[5:len(cond)-1]]; ok {
+			return !d
+		}
+	}
+	r := pc.branchDecide(cond)
+	pc.decided[cond] = r
+	return r
+}
+
+func (pc *pathCtx) branchDecide(cond string) bool {
+	if pc.feasMs > 0 {
+		full := pc.solver.TimeoutMs
+		pc.solver.SetTimeout(pc.feasMs)
+		defer pc.solver.SetTimeout(full)
 	}
 	pc.nsym++
 	pc.stats.SymBranches++
@@ -341,15 +375,19 @@ func (pc *pathCtx) tryViolation(kind, id, msg, pos, extra string) string {
 	if extra != "" {
 		pc.solver.Send("(assert " + extra + ")")
 	}
-	// prefer small dyadic models for reals: try lattice first
-	r := "unknown"
+	// plain check first; for a sat answer with real inputs, try to find a small dyadic model
+	// (exactly representable, so that the native float run follows the same path)
+	r := pc.solver.Check()
 	reals := []string{}
 	for _, n := range pc.nondets {
 		if n.Sort == "real" {
 			reals = append(reals, n.Term)
 		}
 	}
-	if len(reals) > 0 {
+	if r == "sat" && len(reals) > 0 {
+		plain := Violation{Kind: kind, ID: id, Msg: msg, Pos: pos, Model: pc.model(), Nondets: append([]NondetVar{}, pc.nondets...), Prefix: append([]int64{}, pc.taken...)}
+		full := pc.solver.TimeoutMs
+		pc.solver.SetTimeout(3000)
 		pc.solver.Push()
 		for i, t := range reals {
 			k := fmt.Sprintf("lat!%d", i)
@@ -357,16 +395,15 @@ func (pc *pathCtx) tryViolation(kind, id, msg, pos, extra string) string {
 			pc.solver.Send(fmt.Sprintf("(assert (= (* 64.0 %s) (to_real %s)))", t, k))
 			pc.solver.Send(fmt.Sprintf("(assert (and (<= (- 65536) %s) (<= %s 65536)))", k, k))
 		}
-		r = pc.solver.Check()
-		if r == "sat" {
-			v := Violation{Kind: kind, ID: id, Msg: msg, Pos: pos, Model: pc.model(), Nondets: append([]NondetVar{}, pc.nondets...), Prefix: append([]int64{}, pc.taken...)}
-			pc.viol = append(pc.viol, v)
-			pc.solver.Pop()
-			return "sat"
+		r2 := pc.solver.Check()
+		if r2 == "sat" {
+			plain.Model = pc.model()
 		}
 		pc.solver.Pop()
+		pc.solver.SetTimeout(full)
+		pc.viol = append(pc.viol, plain)
+		return "sat"
 	}
-	r = pc.solver.Check()
 	if r == "sat" {
 		v := Violation{Kind: kind, ID: id, Msg: msg, Pos: pos, Model: pc.model(), Nondets: append([]NondetVar{}, pc.nondets...), Prefix: append([]int64{}, pc.taken...)}
 		pc.viol = append(pc.viol, v)
